@@ -195,9 +195,17 @@ class ChargingNetwork(BaseSimObj):
                 "Attempting to register an EVSE after constraints have been added. "
                 "Please register all EVSEs with the network before adding constraints."
             )
-        self._EVSEs[evse.station_id] = evse
-        self._voltages = np.append(self._voltages, voltage)
-        self._phase_angles = np.append(self._phase_angles, phase_angle)
+        if evse.station_id in self._EVSEs:
+            # Re-registering a station replaces it in place, keeping the voltage and
+            # phase angle arrays aligned with station_ids.
+            index = list(self._EVSEs.keys()).index(evse.station_id)
+            self._EVSEs[evse.station_id] = evse
+            self._voltages[index] = voltage
+            self._phase_angles[index] = phase_angle
+        else:
+            self._EVSEs[evse.station_id] = evse
+            self._voltages = np.append(self._voltages, voltage)
+            self._phase_angles = np.append(self._phase_angles, phase_angle)
         # Cached information-storing objects for use by Interface.
         _ = self._update_info_store()
 
